@@ -99,6 +99,15 @@ class SymE:
         """call a repository function from contract code (interpreted, so it may fork)"""
         return self.interp.call(f, list(args), kwargs)
 
+    def call_real(self, f, *args, **kwargs):
+        """interpret the BODY of repository function f (its own contract is not used for this call; callees are modular)"""
+        saved = self.interp.target
+        self.interp.target = f
+        try:
+            return self.interp.call_function(f, list(args), kwargs)
+        finally:
+            self.interp.target = saved
+
     def absdict(self, name, entries=(), pycls=None, ci=False, factory=None, absent=()):
         """a dict with the given explicit entries followed/preceded by an unknown number of further items
         (an abstract tail); keys in ``absent`` are known not to occur in the tail"""
